@@ -18,6 +18,8 @@ import (
 // conc: N goroutines call Execute and Parse on ONE environment at the same time, each with its own context map and
 // writer; every result is compared (by the trace acceptor) with the result of the same call made alone beforehand.
 // When the binary is built with -race, data races inside the library are reported through GORACE's log_path.
+const concSameSource = `v={{ x }};{% if y %}{{ y }}{% endif %}{% for i in [1] %}{{ x }}{% endfor %}`
+
 var concTemplates = map[string]string{
 	"a.html":   `<p>{{ x }}</p>{% block b %}[{{ y }}]{% endblock %}{% for i in [1, 2] %}{{ i }}{{ x }}{% endfor %}`,
 	"b.js":     `var v="{{ x }}";{% for i in [1, 2, 3] %}{{ y }};{% endfor %}{% if y %}{{ x|raw }}{% endif %}`,
@@ -26,6 +28,13 @@ var concTemplates = map[string]string{
 	"e.html":   `{% extends 'a.html' %}{% block b %}E({{ parent() }}){{ x }}{% include 'b.js' %}{% endblock %}`,
 	"f":        `{% macro m(p) %}<{{ p }}>{% endmacro %}{{ _self.m(x) }}{% embed 'a.html' %}{% block b %}F{{ y }}{% endblock %}{% endembed %}`,
 	"bad.html": `{{ x }}{% if y %}unclosed`,
+	// a stateless user function that builds its result with the library's public constructors (a safe value wrapped in a safe
+	// value for another content type), beside prints of values escaped for that type: what one caller constructs is its own
+	"w.html":  `{{ rewrap(x) }}[{{ rewrap(y) }}]{% for i in [1, 2] %}{{ rewrap(i ~ x) }}{% endfor %}`,
+	"wa.html": `{{ x|escape('html_attr') }}|{{ y|escape('js') }}|{{ rewrap(x)|escape('html_attr') }}`,
+	// one source under five names: what a print is escaped for is decided by the name it is rendered under, whichever
+	// of its namesakes the environment has met before
+	"p.html": concSameSource, "p.js": concSameSource, "p.css": concSameSource, "p.txt": concSameSource, "p": concSameSource,
 	// calls that fail part-way, inside a macro, a capture, a filter section and a block() call: whatever they had produced
 	// by then must not show up in anybody's later result
 	"mf.html":   `{% macro m(p) %}<div class="w">{{ p }}{% include 'nope' %}</div>{% endmacro %}A{{ _self.m(x) }}B`,
@@ -63,7 +72,7 @@ var concTemplates = map[string]string{
 }
 
 var concGated = []string{"j.html", "g_for.html", "g_block.html", "g_macro.html", "g_embed.html", "g_filter.html", "g_expr.js", "g_import.html", "g_use.css", "g_obj.html"}
-var concNames = []string{"a.html", "b.js", "c.css", "d.txt", "e.html", "f", "bad.html", "g.js.twig", "h.html", "i.html", "u.html", "m.html", "o.html", "mf.html", "cf.html", "ff.html", "bf.html"}
+var concNames = []string{"a.html", "b.js", "c.css", "d.txt", "e.html", "f", "bad.html", "g.js.twig", "h.html", "i.html", "u.html", "m.html", "o.html", "mf.html", "cf.html", "ff.html", "bf.html", "p.html", "p.js", "p.css", "p.txt", "p", "w.html", "wa.html"}
 
 // barrier: a blocking user function used as a scheduler gate - gate(r) returns when all n callers of round r have
 // arrived (or after a time-out, so that a caller that failed early cannot block the others for ever).
@@ -231,8 +240,15 @@ func init() {
 				}
 				return ""
 			}
+			rewrap := func(ctx stick.Context, a ...stick.Value) stick.Value {
+				if len(a) == 0 {
+					return nil
+				}
+				return stick.NewSafeValue(stick.NewSafeValue(a[0], "html"), "html_attr")
+			}
 			if c.Env == "core" {
 				e := stick.New(loader)
+				e.Functions["rewrap"] = rewrap
 				e.Functions["gate"] = gate
 				e.Functions["shared"] = shared
 				e.Functions["sharedmap"] = sharedmap
@@ -243,6 +259,7 @@ func init() {
 				return e, bar
 			}
 			e := twig.New(loader)
+			e.Functions["rewrap"] = rewrap
 			e.Functions["gate"] = gate
 			e.Functions["shared"] = shared
 			e.Functions["sharedmap"] = sharedmap
@@ -279,13 +296,13 @@ func init() {
 		}
 		close(start)
 		wg.Wait()
-		// 2. every call alone, on another environment: the sequential results
+		// 2. every call alone, each on an environment of its own that has seen nothing else: the sequential results
 		alone := map[string]concResult{}
 		key := func(r concResult) string { return fmt.Sprintf("%d/%d", r.G, r.Round) }
-		seqEnv, seqBar := mk(1, loader)
 		for g := 0; g < c.N; g++ {
 			for r := 0; r < c.Rounds; r++ {
 				tpl, api := pick(g, r)
+				seqEnv, seqBar := mk(1, loader)
 				res := concCall(seqEnv, seqBar, tpl, api, g, r)
 				alone[key(res)] = res
 			}
